@@ -20,6 +20,8 @@ use crate::report::{Opts, Report, Tier, Violation};
 
 #[derive(Debug, Clone, Copy, PartialEq, Eq)]
 pub enum Req {
+    /// QoS 0 PUBLISH: occupies a place in the response queue but produces no packet
+    Pub0,
     Pub1,
     Pub2,
     Sub,
@@ -97,6 +99,10 @@ pub async fn run_case(case: &Case, ch: &mut dyn Choose) -> Outc {
         let id = next_id;
         let code = if v5 { Some(0) } else { None };
         let pkt = match r {
+            Req::Pub0 => {
+                app.pub_plans.borrow_mut().push_back(PubPlan { read: ReadMode::Eager, gated, outcome: Outcome::Ok });
+                R::Publish { dup: false, qos: 0, retain: false, topic: format!("t/{i}"), pid: None, props: vec![], payload: vec![i as u8; 3] }
+            }
             Req::Pub1 | Req::Pub2 => {
                 app.pub_plans.borrow_mut().push_back(PubPlan { read: ReadMode::Eager, gated, outcome: Outcome::Ok });
                 let q = if *r == Req::Pub1 { 1 } else { 2 };
@@ -262,9 +268,9 @@ pub async fn run_case(case: &Case, ch: &mut dyn Choose) -> Outc {
 
 fn kinds_for(role: Role) -> Vec<Req> {
     match role {
-        Role::V3Server => vec![Req::Pub1, Req::Pub2, Req::Sub, Req::Unsub, Req::Ping],
-        Role::V5Server => vec![Req::Pub1, Req::Pub2, Req::Sub, Req::Unsub, Req::Ping, Req::Auth],
-        _ => vec![Req::Pub1, Req::Pub2],
+        Role::V3Server => vec![Req::Pub0, Req::Pub1, Req::Pub2, Req::Sub, Req::Unsub, Req::Ping],
+        Role::V5Server => vec![Req::Pub0, Req::Pub1, Req::Pub2, Req::Sub, Req::Unsub, Req::Ping, Req::Auth],
+        _ => vec![Req::Pub0, Req::Pub1, Req::Pub2],
     }
 }
 
